@@ -74,13 +74,21 @@ DegreeBySize == vs.phase = "idle" =>
    /\ \A f \in Filters : LET dd == DegDist(st, f)  M(d) == d * dd[d]  Z(k) == KSize(k)
                          IN SumSet(M, DOMAIN dd) = SumSet(Z, EdgesF(st, f))
    /\ \A f \in Filters : DOMAIN DegSeq(st, f) = st.nodes
-PearsonLaws == vs.phase = "idle" => \A a, b \in 2..(NN + 1) :
-   /\ Cov(st, a, b) = Cov(st, b, a)
-   /\ Var(st, a) >= 0
-   /\ Cov(st, a, b) * Cov(st, a, b) <= Var(st, a) * Var(st, b)          \* |r| <= 1 (Cauchy-Schwarz)
-   /\ PearsonDefined(st, a, a) => (PearsonSq(st, a, a)[1] = PearsonSq(st, a, a)[2] /\ PearsonSign(st, a, a) = 1)
-   /\ (Var(st, a) = 0) <=> (\A n, m \in st.nodes : Degree(st, n, EqF(a)) = Degree(st, m, EqF(a)))
-   /\ CorrDim(st) >= 0 /\ (a > CorrDim(st) + 1 => Var(st, a) = 0)
+\* the degree table is built once per state: T[z][n] = degree of n at size z
+PearsonLaws == vs.phase = "idle" =>
+   LET ZZ == 2..(NN + 1)
+       T  == [z \in ZZ |-> [n \in st.nodes |-> Degree(st, n, EqF(z))]]
+       S1 == [z \in ZZ |-> LET D(n) == T[z][n] IN SumSet(D, st.nodes)]
+       C  == [p \in ZZ \X ZZ |-> LET P(n) == T[p[1]][n] * T[p[2]][n]
+                                  IN Cardinality(st.nodes) * SumSet(P, st.nodes) - S1[p[1]] * S1[p[2]]]
+   IN \A a, b \in ZZ :
+   /\ C[<<a, b>>] = Cov(st, a, b) /\ C[<<a, a>>] = Var(st, a)          \* the table is the definition
+   /\ C[<<a, b>>] = C[<<b, a>>]
+   /\ C[<<a, a>>] >= 0
+   /\ C[<<a, b>>] * C[<<a, b>>] <= C[<<a, a>>] * C[<<b, b>>]            \* |r| <= 1 (Cauchy-Schwarz)
+   /\ C[<<a, a>>] > 0 => (PearsonSq(st, a, a)[1] = PearsonSq(st, a, a)[2] /\ PearsonSign(st, a, a) = 1)
+   /\ (C[<<a, a>>] = 0) <=> (\A n, m \in st.nodes : T[a][n] = T[a][m])
+   /\ CorrDim(st) >= 0 /\ (a > CorrDim(st) + 1 => C[<<a, a>>] = 0)
 
 (* --- X03-f: multiplex -------------------------------------------------------- *)
 MuxLaws == (Kind = "mux" /\ vs.phase = "idle") =>
@@ -96,7 +104,8 @@ MuxLaws == (Kind = "mux" /\ vs.phase = "idle") =>
 (* --- X03-g: similarity --------------------------------------------------------- *)
 RLe(p, q) == p[1] * q[2] <= q[1] * p[2]
 RAdd(p, q) == <<p[1] * q[2] + q[1] * p[2], p[2] * q[2]>>
-JaccardLaws == (vs.phase = "idle" /\ st.nodes = Node) => \A a, b \in SUBSET Node : JDefined(a, b) =>
+\* a fact about sets, not about the state: evaluated once, in the states with no node
+JaccardLaws == (vs.phase = "idle" /\ st.nodes = {}) => \A a, b \in SUBSET Node : JDefined(a, b) =>
    LET s == Jaccard(a, b)  d == JDist(a, b) IN
    /\ 0 <= s[1] /\ s[1] <= s[2] /\ s[2] > 0 /\ s[1] = Inter(a, b)
    /\ d[2] = s[2] /\ d[1] + s[1] = s[2] /\ 0 <= d[1]                    \* distance = 1 - similarity
